@@ -283,7 +283,7 @@ def step(ctx, case):
         if C03:
             ctx.check('C03 at most one live incarnation per id, and only the latest', all(not o.alive for o in lst[:-1]))
     if C02:
-        ctx.check('C02 no other id enters the table', len(conn.db.items_) == n_keys)
+        ctx.check('C02 no other id enters the table', len(getattr(conn.db, 'items_', conn.db)) == n_keys)
     # frame: nothing that existed before is retyped, relabelled, re-timed or resurrected
     for (o, ty, gen, alive, ct, dt, oid) in snapshot:
         if C02:
@@ -538,6 +538,44 @@ def log_histories(ctx, case):
         if len(got) == len(lst):
             ctx.check('alive flags of id %d: exactly the last incarnation if not deleted; never resurrected' % i, [o.alive for o in got] == [x[2] for x in lst])
     ctx.check('message count', len(conn.messages()) == len(lines))
+
+
+def merged_streams(ctx, case):
+    """two Wayland connections of one program logged WITHOUT connection tags end up as one stream (upstream issue #5): ids are requested again while
+    their holders are alive. Whatever the tool makes of such a stream (it reports an error and refuses the second registry), it never shows two
+    different objects of one connection under the same label, and `list <label>` never mixes them"""
+    import re
+    from core import wl, matcher, util
+    from core.connection_manager import ConnectionManager
+    from core.output import Output
+    from frontends.tui.controller import Controller
+    from backends.libwayland_debug_output import parse
+    from lib.stubs import RecStream
+    n = case
+    _setup()
+    util.color_output = False
+    wl.Message.base_time = None
+    pool = [' -> wl_display@1.get_registry(new id wl_registry@2)', ' -> wl_registry@2.bind(1, "wl_compositor", 4, new id [unknown]@3)',
+            ' -> wl_compositor@3.create_surface(new id wl_surface@4)', ' -> wl_surface@4.commit()', 'wl_display@1.delete_id(4)']
+    t = 1000000
+    lines = []
+    for k in range(n):
+        t += 250000
+        lines.append('[%d.%03d] %s' % (t // 1000, t % 1000, pool[k] if k < 3 else ctx.choose(pool, 'line%d' % k)))
+    out, err = RecStream(), RecStream()
+    output = Output(False, True, out, err)
+    mgr = ConnectionManager()
+    c = Controller(output, mgr, matcher.always, matcher.never)
+    import io
+    parse.into_sink(io.StringIO(''.join(l + chr(10) for l in lines)), output, mgr)
+    for conn in mgr.connections():
+        seen = {}
+        for m in conn.messages():
+            objs = [m.obj] + [a.obj for a in m.args if isinstance(a, wl.Arg.Object)] + ([m.destroyed_obj] if getattr(m, 'destroyed_obj', None) is not None else [])
+            for o in objs:
+                if o.resolved():
+                    lab = '%s@%s' % (o.type, o.id_str()) if hasattr(o, 'id_str') else str(o)
+                    ctx.check('on one connection a label (type@id+letters) names ONE object, however ill-formed the stream', seen.setdefault(lab, o) is o)
 
 
 def twin(ctx, case):
